@@ -5,7 +5,11 @@ ASSUMPTIONS = [
     'the timeout is finite and its magnitude is below 2^62 seconds (NaN, infinities and >= 2^63 s make static_cast<time_t> undefined)',
     'the event is not reset while waits are in flight (documented)',
 ]
-OUTSIDE = 'see NOTES.md'
+OUTSIDE = ('numeric conversion half (timespec >= requested - 1..2 ns): timeout values between the stated windows; NaN / infinite / >= 2^63 s '
+           'durations; more than 2 waiters; more scheduling rounds / spurious returns than stated; weak-memory reorderings (the step machine is '
+           'sequentially consistent); Future<T>/FutureBase forwarding wrappers, createFutureImpl, then-chains; non-Linux CompletionEventImpl '
+           'variants; the steady_clock instantiation is checked for the completion half only; upper bounds on the waiting time (a spurious '
+           'return restarts the full timeout) are not part of the property')
 
 EXACT = {'VF_FUTEX_TIMEOUT_EXACT': 1, 'VF_SPURIOUS': 1}
 
@@ -45,25 +49,25 @@ def conv(name, m1, wbits, twbits, tiers=('quick', 'thorough')):
 
 INSTANCES = [
     ce('ce_for_ns', 0, -1, 4, tsteps=6),
-    ce('ce_for_dbl', 2, -1, 4, tsteps=6),
+    ce('ce_for_dbl', 2, -1, 4, ('thorough',), tsteps=6),
     ce('ce_until', 3, -1, 4, tsteps=6),
     ce('ce_for_and_wait', 0, 4, 4, tsteps=5),
     ce('ce_until_steady', 7, -1, 4, ('thorough',)),
     ce('ce_ms_and_until', 1, 3, 4, ('thorough',)),
     ce('ce_us_and_dbl', 6, 2, 4, ('thorough',)),
     {'name': 'fut_for', 'src': 'future_timed.cpp', 'engine': 'cbmc-seq', 'defs': {'VF_MODE1': 0}, 'steps': 4, 'unwind': 3,
-     'nthreads': 3, 'spin_loops': True, 'timeout': 1500, 'rt_defs': dict(EXACT), 'shims': ['moodycamel'], 'allow_externals': ['_ZN8dispenso6detail22deallocSmallBufferImplEmPv'],
+     'nthreads': 3, 'spin_loops': True, 'timeout': 1500, 'rt_defs': dict(EXACT), 'shims': ['moodycamel'], 'allow_externals': ['_ZN8dispenso6detail22deallocSmallBufferImplEmPv'], 'native_extra': ['harness/C20/native_stubs.cpp'],
      'tiers': ['quick', 'thorough'], 'thorough': {'steps': 6},
      'bounds': 'concrete FutureImplBase<int>; symbolic allowInline_; runner thread (symbolic clock advance, then run()) + waiter '
                'waitFor(nanoseconds(t)), |t| <= 2^53; every interleaving within 4 (thorough: 6) scheduling rounds; <= 1 spurious '
                'futex return per thread; exact futex timeouts; the virtual runFunc() executes without preemption'},
     {'name': 'fut_until', 'src': 'future_timed.cpp', 'engine': 'cbmc-seq', 'defs': {'VF_MODE1': 3}, 'steps': 4, 'unwind': 3,
-     'nthreads': 3, 'spin_loops': True, 'timeout': 1500, 'rt_defs': dict(EXACT), 'shims': ['moodycamel'], 'allow_externals': ['_ZN8dispenso6detail22deallocSmallBufferImplEmPv'],
+     'nthreads': 3, 'spin_loops': True, 'timeout': 1500, 'rt_defs': dict(EXACT), 'shims': ['moodycamel'], 'allow_externals': ['_ZN8dispenso6detail22deallocSmallBufferImplEmPv'], 'native_extra': ['harness/C20/native_stubs.cpp'],
      'tiers': ['thorough'],
      'bounds': 'as fut_for with waitUntil(model-clock time_point(t))'},
     conv('conv_ns', 0, 8, 12),
     conv('conv_dbl', 2, 8, 12),
-    conv('conv_until', 3, 6, 10),
+    conv('conv_until', 3, 6, 10, ('thorough',)),
     conv('conv_ms', 1, 8, 12, ('thorough',)),
     conv('conv_us', 6, 8, 12, ('thorough',)),
 ]
